@@ -151,12 +151,21 @@ Definition add_rm_child (dig : string) (ch : list desc) : list desc :=
   | None => ch
   end.
 
-(* WithChildren: move un-annotated top-level entries to the child list *)
+(* the media types under which a descriptor is listed as a manifest (types.MediaTypeImage / MediaTypeIndex) *)
+Definition manifest_mt (m : string) : bool :=
+  String.eqb m "application/vnd.oci.image.manifest.v1+json"
+  || String.eqb m "application/vnd.docker.distribution.manifest.v2+json"
+  || String.eqb m "application/vnd.oci.image.index.v1+json"
+  || String.eqb m "application/vnd.docker.distribution.manifest.list.v2+json".
+
+(* WithChildren: move un-annotated top-level entries to the child list; a descriptor that is not listed as a
+   manifest references a plain blob and is skipped *)
 Fixpoint add_move_children (cs : list desc) (i : index) : index :=
   match cs with
   | [] => i
   | cd :: r =>
       let i' :=
+        if negb (manifest_mt (d_mt cd)) then i else
         match find_index (fun m => String.eqb (d_dig m) (d_dig cd) && (ann_len m =? 0)%nat)
                          (top i) with
         | Some mi => mkI (swap_remove mi (top i)) (child i ++ [cd])
